@@ -37,6 +37,7 @@ type listRow struct {
 	Mrtd     string   `json:"mrtd"`
 	Ram      int      `json:"ram"`
 	Table    string   `json:"table"`
+	Unspec   bool     `json:"unspec"`
 }
 
 func flipBit(b []byte) []byte {
@@ -165,8 +166,12 @@ func runListing(m *Material, r listRow) (accepted bool, errText string, listed, 
 			}
 		case "cli_sev":
 			ab, _ := proto.Marshal(&tpmpb.Attestation{TeeAttestation: &tpmpb.Attestation_SevSnpAttestation{SevSnpAttestation: att}})
+			args := []string{"sev", "--launch_vmsas", fmt.Sprint(r.Req)}
+			if r.Unspec {
+				args = append(args, "--allow_unspecified_vmsas")
+			}
 			_, err = RunCLI(map[string][]byte{"endo.bin": eb, "att.bin": ab, "root.pem": pemOf(m.RootCert)}, now, nil,
-				"sev", "--launch_vmsas", fmt.Sprint(r.Req), "validate", "att.bin", "--endorsement", "endo.bin", "--root_cert", "root.pem")
+				append(args, "validate", "att.bin", "--endorsement", "endo.bin", "--root_cert", "root.pem")...)
 		}
 	} else {
 		for _, id := range r.Rows {
@@ -308,6 +313,39 @@ func RunC02(run *vk.Run) {
 			run.Sample(map[string]any{"row": r, "spec_result": c.Result, "real_accepted": acc, "real_error": et})
 		}
 	})
+	// one validator callback used for several attestations that come with the same endorsement bytes: what
+	// an earlier call established about the endorsement says nothing about a later report's measurement
+	{
+		roots, now := pool(m.RootCert), time.Date(2026, 6, 1, 0, 0, 0, 0, time.UTC)
+		gs := GoldenSpec{Digest: Meas("fw"), Timestamp: time.Date(2025, 2, 1, 0, 0, 0, 0, time.UTC), ClSpec: 9, Cert: m.SignCert.Raw, Svn: 1,
+			Snp: map[uint32][]byte{1: Meas("m1"), 2: Meas("m2")}}
+		eb, _ := proto.Marshal(Endorse(gs.Proto(), m.S))
+		for _, req := range []uint32{0, 2} {
+			for _, via := range []string{"blob", "getter"} {
+				mk := func() func(*spb.Attestation, []byte) error {
+					o := &verify.Options{RootsOfTrust: roots, Now: now, SNP: &verify.SNPOptions{ExpectedLaunchVMSAs: req}}
+					if via == "getter" {
+						o.Getter = &MapGetter{Any: eb}
+					}
+					return verify.SNPValidateFunc(o)
+				}
+				one := mk()
+				for k, cls := range []string{"m2", "n2", "un", "m1", "m2", "n2"} {
+					att := &spb.Attestation{Report: Report(measOf(cls)), CertificateChain: &spb.CertificateChain{VcekCert: m.Vcek.Raw}}
+					blob := eb
+					if via == "getter" {
+						blob = nil
+					}
+					got := one(att, blob) == nil
+					alone := mk()(att, blob) == nil
+					if got != alone {
+						run.Violation("accepts-unlisted:successive:"+via, fmt.Sprintf("call %d on one validator callback (report measurement %s, count %d, endorsement via %s) gives accept=%v; a fresh callback gives %v", k+1, cls, req, via, got, alone), map[string]any{"measurement": cls, "req": req, "via": via})
+					}
+					run.Case(fmt.Sprintf("successive:%d:%s:%d:%s", req, via, k, cls), true)
+				}
+			}
+		}
+	}
 	run.AddDrift(drift)
 	run.Exhaustive = true
 	run.Rule = "every row of Listing.tla (SNP: subsets of VMSA counts x SVSM x zero-length entry x report measurement incl. one-bit neighbour / unlisted / short x requested count x expected digest x entry point, and for SevValidate / the CLI an attestation whose own certificate table carries another genuine endorsement listing the report's measurement; TDX: subsets of RAM/early-accept rows x zero-length row x quote MRTD x requested RAM x entry point; " + fmt.Sprint(len(em.Cases)) + " rows) is realised as a genuinely signed endorsement plus report / quote and executed; the predicates use the listed sets computed by the harness from the endorsement"
